@@ -29,6 +29,9 @@ type repCase struct {
 	// request side (direct calls)
 	reqAddrs []types.HostAddress
 
+	// referral scenario only: the crealm of the reply of the realm referred to (empty: the client's realm)
+	secondCRealm string
+
 	// reply defects
 	outerCName  []string
 	outerCRealm string
@@ -77,6 +80,8 @@ func (c repCase) describe() string {
 	add(c.encSName != nil, "encsname="+strings.Join(c.encSName, "/"))
 	add(c.encSRealm != "", "encsrealm="+c.encSRealm)
 	add(len(c.encCAddr) > 0, fmt.Sprintf("caddr=%d", len(c.encCAddr)))
+	add(len(c.encCAddr) > 1 && len(c.reqAddrs) > 1, "caddr-list="+addrToks(c.encCAddr))
+	add(c.secondCRealm != "", "second-crealm="+c.secondCRealm)
 	add(c.authOff != 0, fmt.Sprintf("auth=%v", c.authOff))
 	add(c.startOff != 0, fmt.Sprintf("start=%v", c.startOff))
 	add(c.authYears != 0, fmt.Sprintf("auth=%+dy", c.authYears))
